@@ -191,6 +191,7 @@ ROUND8 = {
 
 
 ROUND9 = {
+    'C06': 'Wake-up values that are bare sentinel objects; every delivered wake-up value must reach a continuation (absolute clause next to the twin run).',
     'C01': 'Observer removal after close; a checkpointing listener with an unserialisable output.',
     'C08': 'A chain class with its own bundle key for the outline position.',
     'C10': 'Awaited children that are killed while they wait (the earlier kill cases were vacuous); the future handed to the barrier must resolve when the child ends.',
